@@ -266,6 +266,18 @@ func do(kind, ctx int) {
 	}
 }
 
+func posOneLine() (string, int) { _, f, l, _ := runtime.Caller(0); return f, l }
+
+func posFrames() (string, int) {
+	pcs := make([]uintptr, 1); runtime.Callers(1, pcs); fr, _ := runtime.CallersFrames(pcs).Next(); return fr.File, fr.Line
+}
+
+func posArg(f string, l int) (string, int) { return f, l }
+
+var sinkZq int
+
+func quietZq() bool { sinkZq++; return sinkZq > 0 }
+
 func main() {
 	kind, _ := strconv.Atoi(os.Args[1])
 	ctx, _ := strconv.Atoi(os.Args[2])
@@ -281,6 +293,17 @@ func main() {
 		f := runtime.FuncForPC(pc)
 		ffile, fline := f.FileLine(pc)
 		println("fileline", ffile, fline)
+		// the same queries in layouts gofmt would not produce: several statements on one source line
+		if ok { _, file, line, ok = runtime.Caller(0) }
+		println("caller", file, line, ok)
+		quietZq(); _, file, line, ok = runtime.Caller(0); println("caller", file, line, ok)
+		file, line = posOneLine(); println("caller", file, line, true)
+		file, line = posFrames(); println("caller", file, line, true)
+		func() { defer func() { _, file, line, ok = runtime.Caller(0) }(); quietZq() }()
+		println("caller", file, line, ok)
+		file, line = posArg(func() (string, int) { _, f, l, _ := runtime.Caller(0); return f, l }()); println("caller", file, line, true)
+		for i := 0; i < 2; i++ { _, file, line, ok = runtime.Caller(0); println("caller", file, line, ok) }
+		switch { case ok: _, file, line, ok = runtime.Caller(0); println("caller", file, line, ok) }
 		return
 	case "recover":
 		func() {
